@@ -49,3 +49,24 @@ func TestRegress(t *testing.T) {
 		}
 	}
 }
+
+// D18: the errors held by a context copy (c.Copy() kept for a background job) must not be overwritten by a later
+// request that gets the pooled context.
+func TestRegressCopyKeepsErrors(t *testing.T) {
+	w := chain.NewWorld()
+	prog := &chain.Program{Body: []*chain.Stmt{
+		{Kind: "route", Path: "/a", Methods: []string{"GET"}, Main: w.NewScript("ha", chain.Op{K: chain.OpAddError}, chain.Op{K: chain.OpSet, S: "k1", S2: "a"}, chain.Op{K: chain.OpCopy})},
+		{Kind: "route", Path: "/b", Methods: []string{"GET"}, Main: w.NewScript("hb", chain.Op{K: chain.OpAddError}, chain.Op{K: chain.OpSet, S: "k1", S2: "b"})},
+	}}
+	r := prog.Apply(w)
+	for round := 0; round < 20; round++ {
+		a := w.NewRequest("GET", "/a")
+		a.Serve(r)
+		for i := 0; i < 3; i++ {
+			w.NewRequest("GET", "/b").Serve(r)
+		}
+		if err := a.CheckCopies(); err != nil {
+			t.Fatalf("round %d: %v", round, err)
+		}
+	}
+}
